@@ -463,6 +463,11 @@ def run_distrib(ctx, split):
              {"mode": "distrib", "scenario": "busy", "workers": 20, "trials": 12 if quick else 60},
              {"mode": "distrib", "scenario": "overload", "workers": 20, "messages": 40},
              {"mode": "distrib", "scenario": "overload", "workers": 10, "messages": 25}]
+    # lock-trace probes: the sweeper is held inside its read section until a writer is queued for the lock
+    lt_regs = [reg_json(r) for r in finish_regs([mk_reg(1, 0, 1, "api", True, False), mk_reg(2, 0, 1, "api", True, False),
+                                                  mk_reg(3, 1, 2, "api", False, False), mk_reg(4, 0, 1, "api", True, False)])]
+    for kind in ("track", "dup", "activate"):
+        cases.append({"mode": "locktrace", "scenario": kind, "regs": lt_regs})
     rc, out, res = ctx.go_inpkg(".", PKG, DRIVER, "^(TestVerifC09)$", cases, timeout=300)
     if res is None or len(res) != len(cases):
         ctx.broken("driver", "Go driver (distrib) produced no results: %s" % out[-800:])
@@ -470,6 +475,20 @@ def run_distrib(ctx, split):
     terms = []
     for c, r in zip(cases, res):
         sc = c["scenario"]
+        if c["mode"] == "locktrace":
+            ctx.count(("locktrace", sc, r["depth_at_scan"], r["writer_queued"]), kind="locktrace/" + sc)
+            replay = {"locktrace": c, "observed": {k: v for k, v in r.items() if v not in (None, [], "", 0, False)}}
+            if r.get("error"):
+                ctx.broken("driver", "locktrace driver error: %s" % r["error"], replay)
+            elif r["deadlock"]:
+                ctx.fail("deadlock:sweep-read-section/" + sc, "deadlock: with the expiry sweeper inside its read section "
+                         "(getExpiredRegistrations) and a writer (%s) queued for the registration lock, neither finished - the "
+                         "section takes the read lock again behind the waiting writer. %s" % (sc, r["progress"]), replay)
+            elif r["depth_at_scan"] != 1:
+                ctx.fail("lock-depth:sweep-read-section", "the sweeper holds %d read locks at its scan point (expected 1)" % r["depth_at_scan"], replay)
+            elif not r["writer_queued"]:
+                ctx.broken("driver", "locktrace: the writer never queued for the lock (probe ineffective)", replay)
+            continue
         replay = {"distrib": c, "observed": {k: v for k, v in r.items() if v not in (None, [], "", 0, False)}}
         if r.get("error"):
             ctx.broken("driver", "distrib driver error: %s" % r["error"], replay)
@@ -561,6 +580,10 @@ def run_stress(ctx, race):
         replay = {"stress": {k: v for k, v in c.items() if k != "policies"}, "observed": r}
         if r.get("error"):
             ctx.broken("driver", "stress driver error: %s" % r["error"], replay)
+        if r.get("deadlock"):
+            ctx.fail("deadlock:stress", "deadlock: the free-running pipeline (ingest workers, sweeper, connection handlers%s) stopped "
+                     "making progress: %s" % (", reloads" if c["reloads"] else "", r["progress"]), replay)
+            continue
         for p in r.get("panics") or []:
             ctx.fail("stress:panic", "a pipeline goroutine panicked under stress: %s" % p[:200], replay)
         if not r["maps_in_sync"]:
@@ -668,7 +691,8 @@ def run(ctx):
     ctx.require_kinds(["sched/pair0", "sched/pair+handler", "sched/trio", "sched/mixed", "sched/swept-in-flight",
                        "point/after-track", "point/after-covert", "point/probe", "point/end", "point/collected",
                        "point/before-remove", "point/found", "point/disabled", "sweep/removed", "ingest/duplicate",
-                       "handler/activated", "distrib/idle", "distrib/busy", "distrib/overload"])
+                       "handler/activated", "distrib/idle", "distrib/busy", "distrib/overload",
+                       "locktrace/track", "locktrace/dup", "locktrace/activate"])
     tm["oracle_and_encode"] = round(time.time() - t0, 1)
     t0 = time.time()
     mm = ctx.coq_mismatches("sched", HEADER, terms, "chkb", shard=min(500, max(60, len(terms) // 16 + 1)), need_vo=["C09/Run.vo"])
